@@ -160,6 +160,19 @@ def _impl(tier, seed, search):
         'skew([0,y,z])': (lambda: b.skew([0, y, z]), lambda y_, z_: b.skew([0, y_, z_]), [y, z]),
         'SE3*point([1,y,2])': (lambda: SE3.Rx(th) * [1, y, 2], lambda t, y_: SE3.Rx(t) * [1, y_, 2], [th, y]),
         'transl((0,y,z)) tuple': (lambda: b.transl((0, y, z)), lambda y_, z_: b.transl((0, y_, z_)), [y, z]),
+        # mixed symbol / number vectors for the augmented-skew family (numeric rotational part, symbolic translational part and the reverse)
+        'skewa([x,y,0.3])': (lambda: b.skewa([x, y, 0.3]), lambda x_, y_: b.skewa([x_, y_, 0.3]), [x, y]),
+        'skewa([x,y,z,0,0,0])': (lambda: b.skewa([x, y, z, 0, 0, 0]), lambda x_, y_, z_: b.skewa([x_, y_, z_, 0, 0, 0]), [x, y, z]),
+        'skewa([1,2,3,a,0,0])': (lambda: b.skewa([1, 2, 3, a1, 0, 0]), lambda a_: b.skewa([1, 2, 3, a_, 0, 0]), [a1]),
+        'delta2tr([x,y,z,0,0,0])': (lambda: b.delta2tr([x, y, z, 0, 0, 0]), lambda x_, y_, z_: b.delta2tr([x_, y_, z_, 0, 0, 0]), [x, y, z]),
+        'SE3.Delta([x,y,z,0,0,0.1])': (lambda: SE3.Delta([x, y, z, 0, 0, 0.1]), lambda x_, y_, z_: SE3.Delta([x_, y_, z_, 0, 0, 0.1]), [x, y, z]),
+        # N x 3 arrays of angle triples (multi-valued constructors), symbolic and mixed
+        'SE3.Eul(Nx3)': (lambda: np.array([np.asarray(A_) for A_ in SE3.Eul(np.array([[a1, a2, a3], [a3, 0.2, a1]], dtype=object)).data]),
+                         lambda p, q, r: np.array([np.asarray(A_) for A_ in SE3.Eul(np.array([[p, q, r], [r, 0.2, p]])).data]), [a1, a2, a3]),
+        'SE3.RPY(Nx3)': (lambda: np.array([np.asarray(A_) for A_ in SE3.RPY(np.array([[a1, a2, a3], [a3, 0.2, a1]], dtype=object)).data]),
+                         lambda p, q, r: np.array([np.asarray(A_) for A_ in SE3.RPY(np.array([[p, q, r], [r, 0.2, p]])).data]), [a1, a2, a3]),
+        'SO3.Eul(Nx3)': (lambda: np.array([np.asarray(A_) for A_ in SO3.Eul(np.array([[a1, a2, a3], [a3, 0.2, a1]], dtype=object)).data]),
+                         lambda p, q, r: np.array([np.asarray(A_) for A_ in SO3.Eul(np.array([[p, q, r], [r, 0.2, p]])).data]), [a1, a2, a3]),
         # vectors whose sum of squares is a single term (|x|, not x), numeric x symbolic operand order, non-round float coefficients under simplify()
         'norm([x,0,0])': (lambda: b.norm([x, 0, 0]), lambda x_: b.norm([x_, 0, 0]), [x]), 'norm([x,x,0])': (lambda: b.norm([x, x, 0]), lambda x_: b.norm([x_, x_, 0]), [x]),
         'norm([x*y,0])': (lambda: b.norm([x * y, 0]), lambda x_, y_: b.norm([x_ * y_, 0]), [x, y]), 'norm([0,y])': (lambda: b.norm([0, y]), lambda y_: b.norm([0, y_]), [y]),
